@@ -1,4 +1,105 @@
+/-
+  C15 — Name matching: AmigaDOS case folding (function level).
+  Model: AdfModel/Names.lean (adfToUpper, adfIntlToUpper, adfStrToUpper, adfGetHashValue and the
+  comparison made by adfNameToEntryBlk / adfCreateEntry / adfRenameEntry).
+  Spec: AmigaDOS upper-casing written from doc/FAQ/adf_info.txt: a..z -> A..Z always; on
+  international (and directory-cache) volumes also 0xE0..0xFE except 0xF7 -> minus 0x20.
+  The stateful clauses (lookup finds / duplicate refused / listed name opens) are decided on
+  the real code by the (N, M) histories of tools/props/C15.py against the tree model.
+-/
 import AdfModel.Names
 namespace Adf.C15
-theorem C15_placeholder : True := trivial
+open Adf
+
+/-- the specification of AmigaDOS upper-casing of one byte -/
+def specUpper (intl : Bool) (c : Nat) : Nat :=
+  if 97 ≤ c ∧ c ≤ 122 then c - 32
+  else if intl ∧ 224 ≤ c ∧ c ≤ 254 ∧ c ≠ 247 then c - 32
+  else c
+
+/-- the code's table equals the specification on all 256 byte values, both modes -/
+theorem C15_upper_table (intl : Bool) : ∀ c : Nat, c < 256 →
+    (upperCh intl (UInt8.ofNat c)).toNat = specUpper intl c := by
+  cases intl <;> decide +kernel
+
+/-- upper-casing is idempotent (so comparing folded names is an equivalence) -/
+theorem C15_upper_idem (intl : Bool) : ∀ c : Nat, c < 256 →
+    upperCh intl (upperCh intl (UInt8.ofNat c)) = upperCh intl (UInt8.ofNat c) := by
+  cases intl <;> decide +kernel
+
+theorem upperCh_idem (intl : Bool) (c : UInt8) : upperCh intl (upperCh intl c) = upperCh intl c := by
+  have := C15_upper_idem intl c.toNat c.toNat_lt
+  simpa using this
+
+/-- the folded form of a name as the library stores and compares it: first 30 bytes, upper-cased -/
+def folded (intl : Bool) (name : Bytes) : Bytes := strToUpper intl (name.take MAXNAMELEN)
+
+/-- the hash slot is a function of the folded name: names that fold to the same string hash alike -/
+theorem C15_hash_respects (intl : Bool) (a b : Bytes) (h : folded intl a = folded intl b) :
+    hashName intl a = hashName intl b := by
+  unfold hashName
+  have hlen : (a.take MAXNAMELEN).length = (b.take MAXNAMELEN).length := by
+    have := congrArg List.length h
+    simpa [folded, strToUpper] using this
+  -- the fold only looks at upper-cased characters
+  have key : ∀ (l : Bytes) (init : Nat),
+      l.foldl (fun h c => (h * 13 + (upperCh intl c).toNat) % 2048) init
+        = (l.map (upperCh intl)).foldl (fun h c => (h * 13 + c.toNat) % 2048) init := by
+    intro l
+    induction l with
+    | nil => intro init; rfl
+    | cons c l ih => intro init; simp [List.foldl, ih]
+  simp only []
+  rw [key, key, hlen]
+  have : (a.take MAXNAMELEN).map (upperCh intl) = (b.take MAXNAMELEN).map (upperCh intl) := by
+    simpa [folded, strToUpper] using h
+  rw [this]
+
+/-- every hash value is a valid slot of the 72-entry table -/
+theorem C15_hash_lt (intl : Bool) (name : Bytes) : hashName intl name < HT_SIZE := by
+  unfold hashName HT_SIZE
+  exact Nat.mod_lt _ (by decide)
+
+/-- the comparison used by lookup, creation and rename is exactly equality of folded names -/
+theorem C15_sameName_iff (intl : Bool) (a b : Bytes) :
+    sameName intl a b = true ↔ folded intl a = folded intl b := by
+  unfold sameName folded
+  constructor
+  · intro h
+    simp only [Bool.and_eq_true, beq_iff_eq] at h
+    exact h.2
+  · intro h
+    simp only [Bool.and_eq_true, beq_iff_eq]
+    refine ⟨?_, h⟩
+    have := congrArg List.length h
+    simpa [strToUpper] using this
+
+/-- matching is an equivalence relation on names -/
+theorem C15_sameName_refl (intl : Bool) (a : Bytes) : sameName intl a a = true :=
+  (C15_sameName_iff intl a a).2 rfl
+theorem C15_sameName_symm (intl : Bool) (a b : Bytes) (h : sameName intl a b = true) : sameName intl b a = true :=
+  (C15_sameName_iff intl b a).2 ((C15_sameName_iff intl a b).1 h).symm
+theorem C15_sameName_trans (intl : Bool) (a b c : Bytes) (h1 : sameName intl a b = true) (h2 : sameName intl b c = true) :
+    sameName intl a c = true :=
+  (C15_sameName_iff intl a c).2 (((C15_sameName_iff intl a b).1 h1).trans ((C15_sameName_iff intl b c).1 h2))
+
+/-- names longer than 30 bytes are treated as their 30-byte prefix, consistently by hashing and matching:
+    the name a listing reports (the stored 30-byte prefix) matches the name it was created under -/
+theorem C15_long_names_consistent (intl : Bool) (n : Bytes) :
+    sameName intl n (n.take MAXNAMELEN) = true ∧ hashName intl n = hashName intl (n.take MAXNAMELEN) := by
+  have hf : folded intl n = folded intl (n.take MAXNAMELEN) := by
+    unfold folded; rw [List.take_take]; simp
+  exact ⟨(C15_sameName_iff intl _ _).2 hf, C15_hash_respects intl _ _ hf⟩
+
+/-- matching names sit in the same hash chain (so a lookup walks the chain that holds the entry) -/
+theorem C15_match_same_slot (intl : Bool) (a b : Bytes) (h : sameName intl a b = true) :
+    hashName intl a = hashName intl b :=
+  C15_hash_respects intl a b ((C15_sameName_iff intl a b).1 h)
+
+/-- a plain (non-international) volume does NOT fold Latin-1 letters, an international one does,
+    and 0xF7 / 0xFF are never folded: concrete witnesses -/
+example : sameName false [0xE9] [0xC9] = false ∧ sameName true [0xE9] [0xC9] = true ∧
+          sameName true [0xF7] [0xD7] = false ∧ sameName true [0xFF] [0xDF] = false ∧
+          sameName false [0x61, 0x62] [0x41, 0x42] = true := by decide
+
 end Adf.C15
